@@ -9,7 +9,7 @@ own = len(neu) - agent
 seeds = [d for d in glob.glob(os.path.join(root, "seeded", "*")) if os.path.isdir(d)]
 rounds = sorted({json.load(open(os.path.join(d, "meta.json"))).get("round", "a") for d in seeds if os.path.exists(os.path.join(d, "meta.json"))} - {"?"})
 line = ("/verif/mutants/, seeded/   validation corpus (data): %d mutants + %d neutral refactors of mine + %d neutral refactors and %d breaking\n"
-        "                           changes from independent sub-agents (seed rounds %s-%s%s, neutral rounds one to twenty-seven)\n" % (mut, own, agent, len(seeds), rounds[0], max(r for r in rounds if len(r) == 1), " and aa" if "aa" in rounds else ""))
+        "                           changes from independent sub-agents (seed rounds %s-%s%s, neutral rounds one to twenty-eight)\n" % (mut, own, agent, len(seeds), rounds[0], max(r for r in rounds if len(r) == 1), " and aa" if "aa" in rounds else ""))
 p = os.path.join(root, "DESIGN.md")
 s = open(p).read()
 s2 = re.sub(r"/verif/mutants/, seeded/   validation corpus \(data\):.*?\n.*?\n", line, s, count=1, flags=re.S)
